@@ -124,10 +124,11 @@ pub trait Record {
         };
 
         match self.alignment_span() {
-            Some(Ok(span)) => {
-                let end = usize::from(start) + span - 1;
-                Position::new(end).map(Ok)
-            }
+            Some(Ok(span)) => Some(
+                start
+                    .checked_add(span - 1)
+                    .ok_or_else(|| io::Error::new(io::ErrorKind::InvalidData, "position overflow")),
+            ),
             Some(Err(e)) => Some(Err(e)),
             None => Some(Ok(start)),
         }
@@ -245,5 +246,23 @@ mod tests {
         assert_eq!(actual, expected);
 
         Ok(())
+    }
+
+    #[test]
+    fn test_alignment_end_with_position_overflow() {
+        use crate::alignment::{
+            RecordBuf,
+            record::cigar::{Op, op::Kind},
+        };
+
+        let record = RecordBuf::builder()
+            .set_alignment_start(Position::MAX)
+            .set_cigar([Op::new(Kind::Match, 5)].into_iter().collect())
+            .build();
+
+        assert!(matches!(
+            Record::alignment_end(&record),
+            Some(Err(e)) if e.kind() == io::ErrorKind::InvalidData
+        ));
     }
 }
